@@ -62,7 +62,7 @@ Proof.
       * (* the holder moves *)
         destruct Hcase as [(Hpc & Hdb & Hn)|[(Hpc & Hdb & Hr & Hn)|[(Hpc & Hdb & Hr & Hn)|(Hpc & Hdb & Hr & Hn)]]]; rewrite Hpc.
         -- (* exec *)
-           unfold Inv; cbn. rewrite El. split; [exact Hnd|]. split.
+           unfold Inv; cbn [w_db w_lock w_pc w_res w_notified w_acq w_done]. try rewrite El. split; [exact Hnd|]. split.
            { intros t' Ht'. assert (t' <> h) by (intros ->; apply Ht'; rewrite Eacq; set_solver).
              rewrite !fupd_other by assumption. apply Hout, Ht'. }
            exists acq', dpre. split; [exact Eacq|]. split.
@@ -70,17 +70,18 @@ Proof.
              intros ->. rewrite Eacq in Hnd. apply NoDup_app in Hnd as (_ & Hd & _). apply (Hd h Ht'). set_solver. }
            split; [exact Hser|]. right. left. rewrite !fupd_same, Hdb. auto.
         -- (* notify *)
-           unfold Inv; cbn. rewrite El. split; [exact Hnd|]. split.
+           unfold Inv; cbn [w_db w_lock w_pc w_res w_notified w_acq w_done]. try rewrite El. split; [exact Hnd|]. split.
            { intros t' Ht'. assert (t' <> h) by (intros ->; apply Ht'; rewrite Eacq; set_solver).
              rewrite !fupd_other by assumption. apply Hout, Ht'. }
            exists acq', dpre. split; [exact Eacq|]. split.
            { intros t' Ht'. rewrite fupd_other; [apply Hfin, Ht'|].
              intros ->. rewrite Eacq in Hnd. apply NoDup_app in Hnd as (_ & Hd & _). apply (Hd h Ht'). set_solver. }
-           split; [exact Hser|]. right. right. left. rewrite fupd_same, Hr, notified_of_snoc, Hn.
+           split; [exact Hser|]. right. right. left. rewrite fupd_same, Hr.
            split; [reflexivity|]. split; [exact Hdb|]. split; [reflexivity|].
+           rewrite notified_of_snoc, Hn.
            destruct (committed _); [reflexivity|rewrite app_nil_r; reflexivity].
         -- (* commit *)
-           unfold Inv; cbn. rewrite El. split; [exact Hnd|]. split.
+           unfold Inv; cbn [w_db w_lock w_pc w_res w_notified w_acq w_done]. try rewrite El. split; [exact Hnd|]. split.
            { intros t' Ht'. assert (t' <> h) by (intros ->; apply Ht'; rewrite Eacq; set_solver).
              rewrite !fupd_other by assumption. apply Hout, Ht'. }
            exists acq', dpre. split; [exact Eacq|]. split.
@@ -88,7 +89,7 @@ Proof.
              intros ->. rewrite Eacq in Hnd. apply NoDup_app in Hnd as (_ & Hd & _). apply (Hd h Ht'). set_solver. }
            split; [exact Hser|]. right. right. right. rewrite fupd_same, Hr, Hdb. auto.
         -- (* unlock *)
-           unfold Inv; cbn. rewrite El. rewrite bool_decide_eq_true_2 by reflexivity. rewrite Hr. split; [exact Hnd|]. split.
+           unfold Inv; cbn [w_db w_lock w_pc w_res w_notified w_acq w_done]. try rewrite El. rewrite bool_decide_eq_true_2 by reflexivity. rewrite Hr. split; [exact Hnd|]. split.
            { intros t' Ht'. assert (t' <> h) by (intros ->; apply Ht'; rewrite Eacq; set_solver).
              rewrite !fupd_other by assumption. apply Hout, Ht'. }
            split.
@@ -100,13 +101,13 @@ Proof.
            rewrite Eacq, serial_snoc, Hser. unfold serial_step. cbn. rewrite Hdb. reflexivity.
       * (* a finished request: nothing to do *)
         assert (Ht : t ∈ acq') by (rewrite Eacq in Hacq; set_solver).
-        rewrite (Hfin t Ht). unfold Inv. rewrite El. split; [exact Hnd|]. split; [exact Hout|].
+        rewrite (Hfin t Ht). unfold Inv. try rewrite El. split; [exact Hnd|]. split; [exact Hout|].
         exists acq', dpre. auto.
-    + destruct Hin as (Hfin & Hser & Hn). rewrite (Hfin t Hacq). unfold Inv. rewrite El. auto.
+    + destruct Hin as (Hfin & Hser & Hn). rewrite (Hfin t Hacq). unfold Inv. try rewrite El. auto.
   - (* t has not started: it tries to take the lock *)
     destruct (Hout t Hnacq) as [Hpc Hres]. rewrite Hpc.
     destruct (w_lock w) as [h|] eqn:El.
-    + unfold Inv. rewrite El. auto.
+    + unfold Inv. try rewrite El. auto.
     + destruct Hin as (Hfin & Hser & Hn). unfold Inv; cbn. split.
       { apply NoDup_app. split; [exact Hnd|]. split; [|apply NoDup_singleton].
         intros x Hx Hx'. apply elem_of_list_singleton in Hx' as ->. exact (Hnacq Hx). }
@@ -172,3 +173,15 @@ Qed.
 (** Without the lock the property fails: two increments of a counter interleaved as exec, exec, commit, commit
     lose one.  (The body below drops ALock/AUnlock.) *)
 Definition unlocked_body : list act := [AExec; ANotify; ACommit].
+
+Definition ctr_schema : schema :=
+  mkSchema [mkTable 10%N [mkCol 11%N (mkColTy KAtom (mkBase TInt [] None) None 1 (Some 1%nat)) true] [] true].
+Definition ctr_db : dbstate := {[ 10%N := {[ 20%N := {[ 11%N := VAtom (AInt 0) ]} ]} ]}.
+Definition ctr_incr (_ : nat) : list op := [OMutate 10%N [] [(11%N, MAdd, VAtom (AInt 1))]].
+
+Lemma unlocked_body_refuted :
+  let w := wrun ctr_schema ctr_incr unlocked_body (init_world ctr_db) [0; 1; 0; 0; 1; 1]%nat in
+  w_pc w 0%nat = 3%nat /\ w_pc w 1%nat = 3%nat /\ w_notified w = [0; 1]%nat /\
+  bool_decide (w_db w = (serial ctr_schema ctr_incr ctr_db [0; 1]%nat).1) = false /\
+  bool_decide (w_db w = (serial ctr_schema ctr_incr ctr_db [1; 0]%nat).1) = false.
+Proof. vm_compute. repeat split. Qed.
